@@ -63,6 +63,7 @@ class Mon:
         self.tiers = tiers
         self.hard_ns = hard_ns
         self.skip_dirty_invalidate = True
+        self.order_put_delete = False
         self.hist: list[dict] = []
         self.writes: dict[str, list[dict]] = {k: [] for k in keys}
         self.facts: dict[str, list[tuple]] = {k: [] for k in keys}  # key -> [(t, kind, info)]
@@ -102,6 +103,9 @@ class Mon:
             v = self.backing.get_sync(k)
             tl = self.timeline[k]
             if tl[-1][1] != v:
+                if v is not None and v in self.seen_backing[k]:
+                    # unique values: the backing store went back to a value it had already replaced
+                    self.facts[k].append((t, "backing-store-value-reappears", {"value": v, "replaced": tl[-1][1]}))
                 tl.append((t, v))
                 if v is not None:
                     self.seen_backing[k].add(v)
@@ -357,13 +361,29 @@ class Mon:
                     self.facts[k].append((rec["end"], "promotion-overlaps-write", {"get": rec["id"], "installed": v, "writes": [w["op"] for w in ov]}))
 
     # ------------------------------------------------------------ evaluation
+    def _later(self, x, w):
+        """w is a later write than x: entirely after it, or - for overlapping writes - issued later AND completed later.
+
+        Why that is the system's own order: a write-through put is applied to the cache when issued and to the backing
+        store when it returns, a write-back put is applied when issued and returns a constant latency later, soft-TTL and
+        multi-tier puts are applied when the backing write lands (constant latency after issue); so of two overlapping
+        puts the one issued and completed later is applied later in every layer.  The same holds for put/delete pairs only
+        when a put is not acknowledged before it reaches the backing store (`self.order_put_delete`: write-through
+        CachedStore, multi-tier with write-through L1); with write-back puts a delete that was issued earlier may be applied
+        after a put that was issued later, so such pairs stay unordered.  Overlapping writes ordered differently by issue
+        and completion stay unordered (either may win)."""
+        if x["end"] is None or w["end"] is None:
+            return False
+        if x["end"] < w["start"]:
+            return True
+        kinds = {x["kind"], w["kind"]}
+        if kinds == {"put"} or (self.order_put_delete and kinds <= {"put", "delete"}):
+            return x["start"] < w["start"] and x["end"] < w["end"]
+        return False
+
     def _superseders(self, key, x, before):
-        """strong writes entirely after x and completed strictly before `before`."""
-        return [
-            w
-            for w in self.writes[key]
-            if w["strong"] and w is not x and w["end"] is not None and x["end"] is not None and x["end"] < w["start"] and w["end"] < before
-        ]
+        """strong writes later than x (see _later) that completed strictly before `before`."""
+        return [w for w in self.writes[key] if w["strong"] and w is not x and w["end"] is not None and w["end"] < before and self._later(x, w)]
 
     def _attribute(self, key, since, until, issued=None, value=_ANY):
         issued = until if issued is None else issued
@@ -392,6 +412,10 @@ class Mon:
         if not cands:
             return "unattributed", None
         cands.sort(key=lambda f: f[0])
+        # a value coming back in the backing store itself is upstream of whatever a fill then copied from it
+        for f in cands:
+            if f[1] == "backing-store-value-reappears" and (value is _ANY or f[2].get("value") == value):
+                return f[1], f[2]
         return cands[0][1], cands[0][2]
 
     def _brief(self, rec):
